@@ -12,17 +12,40 @@ Streams (all from ctx.rng):
               "wild" circuit: arbitrary unitary on all modes + beam splitters / phases / swaps) is
               handed to the real StateTomography with a noiseless experiment callback (exact outcome
               frequencies from the implementation's Simulator amplitudes or Sampler distribution);
+  * "hist"    HISTORIES on long-lived objects: one (or two, sharing the base circuit) StateTomography
+              objects are constructed (on the empty or on the finished circuit), then steps alternate
+              between process() and changes of what the result depends on: the base circuit is extended
+              in place (gate by gate, by a sub-circuit, by a grouped sub-circuit, by heralded gates that
+              add ancilla modes, by primitive bs/ps/swaps calls), a Parameter inside it is set to a new
+              value, `experiment` / `experiment_args` are re-assigned (other data source, other input
+              state), the circuit is tidied (unpack_groups, ...), process() is repeated unchanged.  Every
+              process() call is checked exactly as in the state stream against the base circuit AS IT
+              IS NOW (requested circuits = current base + basis changes, base unchanged, rho, .rho,
+              fidelity(), model on the cumulative program) and against a FRESH StateTomography on the
+              current base circuit (same circuits per setting, same rho);
+  * "fid"     state_fidelity on exact pure-state density matrices (1..3 qubits: basis, product, Bell x
+              product, GHZ, W, dense) plus Hermitian rounding residue of magnitude 0, 1e-40 .. 1e-17
+              (multiples of Pauli strings, null-space/support couplings, dense on the null space, dense
+              everywhere, diagonal, sparse), in either / both arguments, ndarray or nested lists:
+              1 within 1e-6, finite, no exception (F28);
+  * "fidmix"  mixed / low-rank / pure pairs against tr sqrt(sqrt(rho) sigma sqrt(rho)) (the library's
+              convention, = model stateFidelity with a true square root) and closed forms (maximally
+              mixed vs pure = 1/sqrt(d), commuting, orthogonal, pure vs mixed), both argument orders;
+  * "fidp"    fidelity() the method on the matrix process() computed from the exact outcome
+              probabilities of a given pure state (stub callback, no emulator);
   * "data"    a stub callback returns synthetic result dictionaries (valid rational counts,
               invalid dual-rail states, missing / surplus results, empty results, zero counts);
   * "init"    constructor argument validation.
+A small directed corpus (HIST_CORPUS, the F28 matrix) always runs first.
 Observables only: the circuits the callback receives (n_modes, input_modes, heralds, U_full),
-process() / .rho, .fidelity(), exception classes.
+the arguments it receives, process() / .rho, .fidelity(), state_fidelity, exception classes.
 """
 
 from __future__ import annotations
 
 import json
 import os
+import random
 import subprocess
 import sys
 from fractions import Fraction
@@ -55,6 +78,11 @@ ASSUMPTIONS = [
     "directly on the base circuit does not renumber the modes addressed by Circuit.add and is outside "
     "the quantifier (2n visible modes addressed as 0..2n-1)",
     "n = 1..3 qubits in the correspondence check (theorems are for every n)",
+    "histories: the experiment callback and experiment_args are the object's public attributes; the state "
+    "'the base circuit prepares' is taken for the input the CURRENT experiment / experiment_args use",
+    "fidelity convention: F = tr sqrt(sqrt(rho) sigma sqrt(rho)) (no square), as the code and the model's "
+    "stateFidelity define it; mixed-state comparisons are correspondence checks, only F = 1 against the "
+    "prepared / returned matrix is a clause of the property",
 ]
 
 import warnings
@@ -292,57 +320,89 @@ def run_data(ctx: Ctx, case: dict) -> list[str]:
     return probs
 
 
-def run_state(ctx: Ctx, case: dict, want_detail: bool = False):
-    n, prog = case["n"], case["prog"]
+class _ExpHolder:
+    """a bound method is an accepted experiment (FunctionType | MethodType)"""
+
+    def __init__(self, fn) -> None:
+        self.fn = fn
+
+    def run(self, circuits, bits=None):
+        return self.fn(circuits, bits)
+
+
+def freq_key(c, in_state, src: str):
+    try:
+        return (np.array(c.U_full).tobytes(), tuple(sorted(c.heralds["output"].items())), tuple(in_state), src)
+    except Exception:  # noqa: BLE001
+        return None
+
+
+def make_experiment(cfg: dict, rec: dict, n: int, cache: dict | None = None):
+    """noiseless experiment callback (exact outcome frequencies of every requested circuit from the
+    implementation's Simulator / Sampler).  cfg: source, drop_zero, shuffle, in_bits, kind.  The callback
+    takes an optional second positional argument (input bits handed over through `experiment_args`).
+    Everything it is given / returns is recorded in rec["seen"], rec["returned"], rec["bits"].
+    `cache` (histories only): frequencies of circuits with bit-identical U_full, heralds and input."""
+    import random
+
+    srng = random.Random(cfg["shuffle"])
+
+    def experiment(circuits, bits=None):
+        use = list(cfg["in_bits"] if bits is None else bits)
+        rec["bits"] = use
+        in_state = tm.input_state(use)
+        rec["seen"].extend(circuits)
+        out = []
+        for c in circuits:
+            src = cfg["source"]
+            key = freq_key(c, in_state, src) if cache is not None else None
+            fr = cache.get(key) if key is not None else None
+            if fr is None:
+                fr = tm.exact_frequencies(c, in_state, n, "sim" if src == "sim" else "sampler",
+                                          backend=src if src != "sim" else "permanent")
+                if key is not None:
+                    cache[key] = fr
+            items = list(fr.items())
+            if cfg["drop_zero"]:
+                kept = [(k, v) for k, v in items if v > 0]
+                items = kept or items
+            srng.shuffle(items)
+            rec["returned"].append(items)
+            out.append({lw.State(list(k)): v for k, v in items})
+        return out
+
+    if cfg.get("kind") == "method":
+        return _ExpHolder(experiment).run
+    if cfg.get("kind") == "one-arg":
+        return lambda circuits: experiment(circuits)  # noqa: PLW0108  (a lambda is a FunctionType too)
+    return experiment
+
+
+def check_process_call(ctx: Ctx, n: int, base, tomo, rec: dict, in_state, mprog, stream: str = "state"):
+    """ONE process() call on `tomo` (whose callback records into `rec`) against the property's clauses
+    for the base circuit AS IT IS NOW, and against the model (`mprog`: qubit-level program of the
+    current base incl. the input X gates, or None when the model cannot follow it).
+    Returns (problems, detail | None); detail["rho"] is the returned matrix."""
     mt = meta(ctx, n)
     mu = mt["meas_u_np"]
     probs: list[str] = []
-    base = tm.build_base(n, prog)
-    if case.get("top_herald"):
-        outer = lw.Circuit(2 * n + 1)
-        outer.add(base, 1 if case["top_herald"] == "first" else 0)
-        pos = 0 if case["top_herald"] == "first" else 2 * n
-        outer.herald(0, pos, pos)
-        base = outer
-        ctx.count("state:herald-declared-on-base")
-    in_state = tm.input_state(case["in_bits"])
     before = cg.observe(base)
     vis = tm.visible_modes(base)
     if base.input_modes != 2 * n or len(vis) != 2 * n:
         raise MachineryFault(f"generated base circuit has {base.input_modes} input modes, wanted {2 * n}")
-    import random
-
-    srng = random.Random(case["shuffle"])
-    seen: list = []
-    returned: list = []
-
-    def experiment(circuits):
-        seen.extend(circuits)
-        out = []
-        for c in circuits:
-            src = case["source"]
-            fr = tm.exact_frequencies(c, in_state, n, "sim" if src == "sim" else "sampler",
-                                      backend=src if src != "sim" else "permanent")
-            items = list(fr.items())
-            if case["drop_zero"]:
-                kept = [(k, v) for k, v in items if v > 0]
-                items = kept or items
-            srng.shuffle(items)
-            returned.append(items)
-            out.append({lw.State(list(k)): v for k, v in items})
-        return out
-
     psi = tm.reference_state(base, in_state, n)
     norm = float(np.vdot(psi, psi).real)
     if norm < 1e-7:
-        ctx.count("state:never-succeeds (skipped)")
-        return (probs, None) if want_detail else probs
-    tomo = StateTomography(n, base, experiment)
+        ctx.count(f"{stream}:never-succeeds (skipped)")
+        return probs, None
+    rec["seen"].clear()
+    rec["returned"].clear()
+    seen, returned = rec["seen"], rec["returned"]
     try:
         rho = np.array(tomo.process())
     except Exception as e:  # noqa: BLE001
         probs.append(f"oracle: process() raised {exc_class(e)} on noiseless data: {e}")
-        return (probs, None) if want_detail else probs
+        return probs, None
     # ---- clause: the circuits the callback receives
     after = cg.observe(base)
     if (before["n"], before["in_heralds"], before["out_heralds"]) != (after["n"], after["in_heralds"], after["out_heralds"]) \
@@ -372,12 +432,13 @@ def run_state(ctx: Ctx, case: dict, want_detail: bool = False):
         probs.append("oracle: the requested circuits do not cover every measurement setting exactly once")
     # ---- clause: rho is the density matrix of the prepared state
     ref = np.outer(psi, psi.conj()) / norm
+    detail = {"order": order, "norm": norm, "rho": rho, "psi": psi}
     if rho.shape != ref.shape:
         probs.append(f"oracle: rho has shape {rho.shape}")
-        return (probs, None) if want_detail else probs
+        return probs, None
     if not np.all(np.abs(rho - rho.conj().T) <= TOL):
         probs.append("oracle: rho is not Hermitian")
-    if abs(np.trace(rho) - 1) > TOL:
+    if not abs(np.trace(rho) - 1) <= TOL:
         probs.append(f"oracle: trace(rho) = {np.trace(rho)}")
     if not np.all(np.abs(rho - ref) <= TOL):
         probs.append(f"oracle: rho differs from |psi><psi| of the state the base circuit prepares "
@@ -390,13 +451,12 @@ def run_state(ctx: Ctx, case: dict, want_detail: bool = False):
     # string hash seed: the failure was reproducible per process, not per run).
     try:
         fid = tomo.fidelity(density_from_state(psi / np.sqrt(norm)))
-        if abs(fid - 1) > FID_TOL:
+        if not abs(fid - 1) <= FID_TOL:  # (a nan must not pass)
             probs.append(f"oracle: fidelity against the prepared state is {fid}")
     except Exception as e:  # noqa: BLE001
         probs.append(f"oracle: fidelity() raised {exc_class(e)}")
-    detail = {"order": order, "norm": norm}
     if None in order or len(order) != 3**n or sorted(order) != sorted(tm.all_settings(n)):
-        return (probs, detail) if want_detail else probs
+        return probs, detail
     # ---- correspondence 1: the post-processing on exactly the numbers the callback returned
     mres = [[[list(k), tm.float_exact(v)] for k, v in items] for items in returned]
     m = ctx.model.call({"op": "tomo", "kind": "process", "n": n, "order": order, "results": mres})
@@ -407,9 +467,8 @@ def run_state(ctx: Ctx, case: dict, want_detail: bool = False):
         if not np.all(np.abs(rho - mr) <= TOL):
             probs.append(f"corr: rho differs from the model's process() on the same data (max {np.abs(rho - mr).max():.2e})")
     # ---- correspondence 2: the qubit-level specification (Born tables, exact rho)
-    if tm.is_modelable(prog):
-        b = ctx.model.call({"op": "tomo", "kind": "born", "n": n, "order": order,
-                            "prog": tm.model_prog(prog, case["in_bits"])})
+    if mprog is not None:
+        b = ctx.model.call({"op": "tomo", "kind": "born", "n": n, "order": order, "prog": mprog})
         if "error" in b:
             probs.append(f"corr: model process() on its own Born tables fails: {b['error']}")
         else:
@@ -432,7 +491,761 @@ def run_state(ctx: Ctx, case: dict, want_detail: bool = False):
                 else:
                     continue
                 break
+    return probs, detail
+
+
+def run_state(ctx: Ctx, case: dict, want_detail: bool = False):
+    n, prog = case["n"], case["prog"]
+    base = tm.build_base(n, prog)
+    if case.get("top_herald"):
+        outer = lw.Circuit(2 * n + 1)
+        outer.add(base, 1 if case["top_herald"] == "first" else 0)
+        pos = 0 if case["top_herald"] == "first" else 2 * n
+        outer.herald(0, pos, pos)
+        base = outer
+        ctx.count("state:herald-declared-on-base")
+    in_state = tm.input_state(case["in_bits"])
+    rec = {"seen": [], "returned": []}
+    cfg = {"source": case["source"], "drop_zero": case["drop_zero"], "shuffle": case["shuffle"],
+           "in_bits": case["in_bits"], "kind": "one-arg"}
+    tomo = StateTomography(n, base, make_experiment(cfg, rec, n))
+    mprog = tm.model_prog(prog, case["in_bits"]) if tm.is_modelable(prog) else None
+    probs, detail = check_process_call(ctx, n, base, tomo, rec, in_state, mprog, "state")
     return (probs, detail) if want_detail else probs
+
+
+# --------------------------------------------------------------------------- histories on long-lived objects
+#
+# One (or two) StateTomography objects live through a sequence of steps: the base circuit they were
+# built on is extended in place (single gates, sub-circuits, grouped sub-circuits, heralded gates that
+# add private ancilla modes, primitive bs/ps/swaps calls), a Parameter the base circuit depends on is
+# changed, the experiment callback or its extra arguments are re-assigned, the circuit is tidied
+# (unpack_groups, ...), and process() / .rho / fidelity() are used again after every change.  After every
+# process() the clauses of the property are evaluated for the base circuit AS IT IS NOW (exactly as in
+# the one-shot "state" stream), the result is compared with a FRESH StateTomography built on the
+# current base circuit, and with the model on the cumulative qubit-level program.
+
+PHASE_Q2 = ["1,0,0,0", "0,0,1/2,1/2", "0,1,0,0", "0,0,-1/2,1/2", "-1,0,0,0", "0,0,-1/2,-1/2", "0,-1,0,0",
+            "0,0,1/2,-1/2"]  # exp(i k pi/4) in Q(i, sqrt2)
+TIDY_OPS = ["unpack_groups", "compress_mode_swaps", "remove_non_adjacent_bs", "barrier"]
+
+
+def param_value(v: dict) -> float:
+    return v["k"] * np.pi / 4 if v["kind"] == "phase" else float(v["v"])
+
+
+def hist_apply_gate(c, g: list, pobj: dict) -> None:
+    if g[0] == "PPS":  # phase shifter with a live Parameter on one rail of qubit g[1]
+        c.ps(2 * g[1] + g[2], pobj[g[3]])
+    elif g[0] == "PBS":  # beam splitter across the rails of qubit g[1], reflectivity a live Parameter
+        c.bs(2 * g[1], 2 * g[1] + 1, reflectivity=pobj[g[2]])
+    else:
+        tm.extend_base(c, [g])
+
+
+def hist_apply(base, n: int, gates: list, pobj: dict, how: str) -> None:
+    if how == "each":
+        for g in gates:
+            hist_apply_gate(base, g, pobj)
+        return
+    sub = lw.Circuit(2 * n)
+    for g in gates:
+        hist_apply_gate(sub, g, pobj)
+    base.add(sub, 0, group=(how == "group"))
+
+
+def hist_model_prog(prog: list, ptab: dict, bits: list):
+    out = [["X", q] for q, b in enumerate(bits) if b]
+    for g in prog:
+        if g[0] in ("MODEU", "PRIM", "PBS"):
+            return None
+        if g[0] == "PPS":
+            ph = PHASE_Q2[ptab[g[3]]["k"] % 8]
+            one, zero = "1,0,0,0", "0,0,0,0"
+            out.append(["U", g[1], [[ph, zero], [zero, one]] if g[2] == 0 else [[one, zero], [zero, ph]]])
+        else:
+            out.append(g)
+    return out
+
+
+def rand_exp_cfg(rng, n: int, small: bool, bits=None) -> dict:
+    source = "sim"
+    if small and rng.random() < 0.3:
+        source = rng.choice(["permanent", "slos"])
+    if bits is None:
+        bits = [0] * n if rng.random() < 0.7 else [rng.randint(0, 1) for _ in range(n)]
+    return {"source": source, "drop_zero": rng.random() < 0.3, "shuffle": rng.randrange(1 << 30),
+            "in_bits": bits, "kind": rng.choice(["function", "function", "method", "one-arg"])}
+
+
+def other_bits(rng, n: int, cur: list) -> list:
+    b = list(cur)
+    q = rng.randrange(n)
+    b[q] ^= 1
+    for k in range(n):
+        if k != q and rng.random() < 0.3:
+            b[k] ^= 1
+    return b
+
+
+def gen_hist_case(ctx: Ctx, rng) -> dict:
+    n = rng.choices([1, 2, 3], weights=[40, 45, 15])[0]
+    wild = rng.random() < 0.25
+    prog = gen_wild(rng, n) if wild else tm.rand_gate_program(rng, n, max_len=2 + 2 * n, max_her=1)
+    if len(prog) < 2:
+        prog = [["H", 0], *prog, [rng.choice(["S", "T", "SX", "H"]), rng.randrange(n)]]
+    params: dict = {}
+    for _ in range(rng.choice([0, 0, 1, 1, 2])):
+        pid = str(len(params))
+        q = rng.randrange(n)
+        if rng.random() < 0.75:
+            params[pid] = {"kind": "phase", "k": rng.randrange(8)}
+            gate = ["PPS", q, rng.randint(0, 1), pid]
+        else:
+            params[pid] = {"kind": "refl", "v": rng.choice([0.0, 0.5, 1.0, round(rng.random(), 3)])}
+            gate = ["PBS", q, pid]
+        pos = rng.randint(0, len(prog))
+        # a superposition in front, so that the parameter is visible in the state
+        prog[pos:pos] = [[rng.choice(["H", "SX"]), q], gate] if rng.random() < 0.6 else [gate]
+    n_her = sum(1 for g in prog if g[0] in ("CZ", "CNOT") and g[3]["impl"] == "her")
+    n_ps = sum(1 for g in prog if g[0] in ("CZ", "CNOT") and g[3]["impl"] == "ps")
+    small = 2 * n + 4 * n_her + 2 * n_ps <= 8
+    rounds = rng.choice([2, 2, 3, 3, 4])
+    cuts = sorted(rng.randint(0, len(prog)) for _ in range(rounds - 1))
+    if cuts[0] == len(prog):
+        cuts[0] = rng.randint(0, len(prog) - 1)  # something is left to add after the first process()
+    chunks = [prog[a:b] for a, b in zip([0, *cuts], [*cuts, len(prog)])]
+    n_obj = rng.choice([1, 1, 1, 2])
+    steps: list = []
+    objs_cfg = []
+    for o in range(n_obj):
+        cfg = rand_exp_cfg(rng, n, small)
+        args = None
+        if cfg["kind"] != "one-arg" and rng.random() < 0.35:
+            args = [0] * n if rng.random() < 0.6 else [rng.randint(0, 1) for _ in range(n)]
+        objs_cfg.append({"op": "new", "obj": o, "exp": cfg, "args": args})
+    early = rng.random() < 0.5  # construct -> mutate -> use   /   build the circuit -> construct -> use
+    if early:
+        steps += objs_cfg
+    state = [dict(c) for c in objs_cfg]  # what the generator believes about each object
+    for r, chunk in enumerate(chunks):
+        if chunk:
+            steps.append({"op": "extend", "gates": chunk, "how": rng.choice(["each", "each", "sub", "group"])})
+        if r == 0 and not early:
+            steps += objs_cfg
+        if r > 0:
+            if params and rng.random() < 0.6:
+                pid = rng.choice(list(params))
+                if params[pid]["kind"] == "phase":
+                    steps.append({"op": "setparam", "pid": pid, "k": (params[pid]["k"] + rng.randint(1, 7)) % 8})
+                else:
+                    steps.append({"op": "setparam", "pid": pid,
+                                  "v": rng.choice([0.0, 0.5, 1.0, round(rng.random(), 3)])})
+            o = rng.randrange(n_obj)
+            x = rng.random()
+            if x < 0.25:
+                cur = state[o]["args"] if state[o]["args"] is not None else state[o]["exp"]["in_bits"]
+                bits = other_bits(rng, n, cur) if rng.random() < 0.7 else list(cur)
+                cfg = rand_exp_cfg(rng, n, small, bits)
+                if state[o]["args"] is not None and cfg["kind"] == "one-arg":
+                    cfg["kind"] = "function"
+                steps.append({"op": "setexp", "obj": o, "exp": cfg})
+                state[o]["exp"] = cfg
+            elif x < 0.5 and state[o]["exp"]["kind"] != "one-arg":
+                cur = state[o]["args"] if state[o]["args"] is not None else state[o]["exp"]["in_bits"]
+                bits = None if (state[o]["args"] is not None and rng.random() < 0.2) else other_bits(rng, n, cur)
+                steps.append({"op": "setargs", "obj": o, "args": bits})
+                state[o]["args"] = bits
+            elif x < 0.65:
+                steps.append({"op": "tidy", "what": rng.choice(TIDY_OPS)})
+        who = [rng.randrange(n_obj)] if rng.random() < 0.75 else list(range(n_obj))
+        if rng.random() < 0.15:
+            who = who + [who[0]]  # repeated call without any change
+        steps += [{"op": "process", "obj": o} for o in who]
+    return {"stream": "hist", "n": n, "params": params, "steps": steps}
+
+
+HIST_CORPUS = [
+    # |+>|0>, process, extend by a heralded CNOT (4 -> 8 modes, Bell state), process again
+    {"stream": "hist", "n": 2, "params": {}, "steps": [
+        {"op": "extend", "gates": [["H", 0]], "how": "each"},
+        {"op": "new", "obj": 0, "exp": {"source": "sim", "drop_zero": False, "shuffle": 1, "in_bits": [0, 0],
+                                        "kind": "function"}, "args": None},
+        {"op": "process", "obj": 0},
+        {"op": "extend", "gates": [["CNOT", 0, 1, {"impl": "her"}]], "how": "each"},
+        {"op": "process", "obj": 0}]},
+    # one qubit: real -> complex -> complex, one gate at a time; object constructed on the empty circuit
+    {"stream": "hist", "n": 1, "params": {}, "steps": [
+        {"op": "new", "obj": 0, "exp": {"source": "sim", "drop_zero": True, "shuffle": 2, "in_bits": [0],
+                                        "kind": "method"}, "args": None},
+        {"op": "process", "obj": 0},
+        {"op": "extend", "gates": [["H", 0]], "how": "each"},
+        {"op": "process", "obj": 0},
+        {"op": "extend", "gates": [["S", 0]], "how": "sub"},
+        {"op": "process", "obj": 0},
+        {"op": "extend", "gates": [["T", 0]], "how": "group"},
+        {"op": "process", "obj": 0}]},
+    # a Parameter the base circuit depends on changes between two calls: (|00> + e^{ik pi/4}|11>)/sqrt2
+    {"stream": "hist", "n": 2, "params": {"0": {"kind": "phase", "k": 0}}, "steps": [
+        {"op": "extend", "gates": [["H", 0], ["CNOT", 0, 1, {"impl": "ps"}], ["PPS", 1, 1, "0"]], "how": "each"},
+        {"op": "new", "obj": 0, "exp": {"source": "sim", "drop_zero": False, "shuffle": 3, "in_bits": [0, 0],
+                                        "kind": "function"}, "args": None},
+        {"op": "process", "obj": 0},
+        {"op": "setparam", "pid": "0", "k": 2},
+        {"op": "process", "obj": 0},
+        {"op": "setparam", "pid": "0", "k": 5},
+        {"op": "process", "obj": 0}]},
+    # experiment_args re-assigned (the input state the experiment uses), then the experiment itself
+    {"stream": "hist", "n": 2, "params": {}, "steps": [
+        {"op": "extend", "gates": [["H", 0], ["T", 0], ["SX", 1]], "how": "sub"},
+        {"op": "new", "obj": 0, "exp": {"source": "sim", "drop_zero": False, "shuffle": 4, "in_bits": [0, 0],
+                                        "kind": "function"}, "args": [0, 0]},
+        {"op": "process", "obj": 0},
+        {"op": "setargs", "obj": 0, "args": [1, 0]},
+        {"op": "process", "obj": 0},
+        {"op": "setexp", "obj": 0, "exp": {"source": "permanent", "drop_zero": True, "shuffle": 5,
+                                           "in_bits": [0, 1], "kind": "method"}},
+        {"op": "setargs", "obj": 0, "args": None},
+        {"op": "process", "obj": 0}]},
+    # two tomography objects share one base circuit; used alternately around an extension
+    {"stream": "hist", "n": 2, "params": {}, "steps": [
+        {"op": "extend", "gates": [["SX", 0], ["H", 1]], "how": "each"},
+        {"op": "new", "obj": 0, "exp": {"source": "sim", "drop_zero": False, "shuffle": 6, "in_bits": [0, 0],
+                                        "kind": "function"}, "args": None},
+        {"op": "new", "obj": 1, "exp": {"source": "slos", "drop_zero": False, "shuffle": 7, "in_bits": [0, 1],
+                                        "kind": "one-arg"}, "args": None},
+        {"op": "process", "obj": 0},
+        {"op": "extend", "gates": [["CZ", 0, 1, {"impl": "ps"}], ["S", 1]], "how": "group"},
+        {"op": "process", "obj": 1},
+        {"op": "process", "obj": 0},
+        {"op": "process", "obj": 0}]},
+    # three qubits: Bell pair x |0>  ->  GHZ, then tidy the circuit and call again
+    {"stream": "hist", "n": 3, "params": {}, "steps": [
+        {"op": "new", "obj": 0, "exp": {"source": "sim", "drop_zero": False, "shuffle": 8, "in_bits": [0, 0, 0],
+                                        "kind": "function"}, "args": None},
+        {"op": "extend", "gates": [["H", 0], ["CNOT", 0, 1, {"impl": "ps"}]], "how": "group"},
+        {"op": "process", "obj": 0},
+        {"op": "extend", "gates": [["CNOT", 1, 2, {"impl": "ps"}], ["Sadj", 2]], "how": "each"},
+        {"op": "process", "obj": 0},
+        {"op": "tidy", "what": "unpack_groups"},
+        {"op": "process", "obj": 0}]},
+]
+
+
+def run_hist(ctx: Ctx, case: dict, want_info: bool = False):
+    n = case["n"]
+    ptab = {pid: dict(v) for pid, v in case["params"].items()}
+    pobj = {pid: lw.Parameter(param_value(v)) for pid, v in ptab.items()}
+    base = lw.Circuit(2 * n)
+    cum: list = []
+    objs: dict = {}
+    cache: dict = {}
+    probs: list[str] = []
+    info = {"processes": 0, "state_changed_between_calls": 0, "modes_changed_between_calls": 0, "ops": set()}
+    since: list = []  # operations since the previous process() of any object (for the messages)
+    for i, st in enumerate(case["steps"]):
+        op = st["op"]
+        if op == "new":
+            rec = {"seen": [], "returned": []}
+            cfg = dict(st["exp"])
+            args = st.get("args")
+            tomo = StateTomography(n, base, make_experiment(cfg, rec, n, cache),
+                                   None if args is None else [list(args)])
+            objs[st["obj"]] = {"tomo": tomo, "rec": rec, "cfg": cfg, "args": args, "last": None, "calls": 0,
+                               "pending": set()}
+            continue
+        if op == "process":
+            if st["obj"] not in objs:
+                raise MachineryFault("history processes an object that was not constructed")
+            o = objs[st["obj"]]
+            bits = list(o["args"] if o["args"] is not None else o["cfg"]["in_bits"])
+            in_state = tm.input_state(bits)
+            mprog = hist_model_prog(cum, ptab, bits)
+            p, detail = check_process_call(ctx, n, base, o["tomo"], o["rec"], in_state, mprog, "hist")
+            o["calls"] += 1
+            info["processes"] += 1
+            where = f" [history step {i}: process() call #{o['calls']} on this object" + \
+                    (f", after {'+'.join(sorted(o['pending']))}" if o["pending"] else "") + "]"
+            if detail is not None and o["rec"].get("bits") != bits:
+                p.append(f"oracle: the callback was handed experiment_args {o['rec'].get('bits')}, the object's "
+                         f"current experiment / experiment_args say {bits}")
+            if detail is not None:
+                p += compare_with_fresh(ctx, n, base, o, bits, detail, cache)
+                cur = (detail["psi"] / np.sqrt(detail["norm"]), base.n_modes)
+                if o["last"] is not None:
+                    for kind in o["pending"]:
+                        ctx.count(f"hist:process-after-{kind}")
+                    if not o["pending"]:
+                        ctx.count("hist:process-repeated-unchanged")
+                    if abs(abs(np.vdot(cur[0], o["last"][0])) - 1) > 1e-6:
+                        info["state_changed_between_calls"] += 1
+                    if cur[1] != o["last"][1]:
+                        info["modes_changed_between_calls"] += 1
+                o["last"] = cur
+            o["pending"] = set()
+            probs += [x + where for x in p]
+            continue
+        # ---- mutations
+        info["ops"].add(op)
+        tag = op
+        if op == "extend":
+            before_modes = base.n_modes
+            hist_apply(base, n, st["gates"], pobj, st["how"])
+            cum += st["gates"]
+            tag = "extend-" + st["how"] + ("-adding-heralds" if base.n_modes != before_modes else "")
+        elif op == "setparam":
+            ptab[st["pid"]] = {"kind": "phase", "k": st["k"]} if "k" in st else {"kind": "refl", "v": st["v"]}
+            pobj[st["pid"]].set(param_value(ptab[st["pid"]]))
+        elif op == "setexp":
+            o = objs.get(st["obj"])
+            if o is None:
+                raise MachineryFault("history re-assigns the experiment of an object that was not constructed")
+            o["cfg"] = dict(st["exp"])
+            o["tomo"].experiment = make_experiment(o["cfg"], o["rec"], n, cache)
+        elif op == "setargs":
+            o = objs.get(st["obj"])
+            if o is None:
+                raise MachineryFault("history re-assigns the arguments of an object that was not constructed")
+            if o["cfg"]["kind"] == "one-arg" and st["args"] is not None:
+                raise MachineryFault("history hands extra arguments to a one-argument callback")
+            o["args"] = st["args"]
+            o["tomo"].experiment_args = None if st["args"] is None else [list(st["args"])]
+        elif op == "tidy":
+            if st["what"] == "barrier":
+                base.barrier()
+            else:
+                getattr(base, st["what"])()
+            tag = "tidy-" + st["what"]
+        else:
+            raise MachineryFault(f"unknown history step {op}")
+        for k, o in objs.items():
+            if op in ("setexp", "setargs") and k != st["obj"]:
+                continue
+            o["pending"].add(tag)
+    return (probs, info) if want_info else probs
+
+
+def compare_with_fresh(ctx: Ctx, n: int, base, o: dict, bits: list, detail: dict, cache: dict) -> list[str]:
+    """a StateTomography constructed NOW on the same base circuit, same data source: the circuits it
+    requests and the matrix it returns are what the long-lived object must have produced too"""
+    probs: list[str] = []
+    frec = {"seen": [], "returned": []}
+    fcfg = dict(o["cfg"], in_bits=bits, kind="one-arg")
+    long_seen = list(o["rec"]["seen"])
+    try:
+        frho = np.array(StateTomography(n, base, make_experiment(fcfg, frec, n, cache)).process())
+    except Exception as e:  # noqa: BLE001
+        return [f"oracle: process() of a fresh StateTomography on the same base circuit raised {exc_class(e)}"]
+    uf = np.array(base.U_full)
+    vis = tm.visible_modes(base)
+    forder = [tm.identify_setting(c, uf, vis, n)[0] for c in frec["seen"]]
+    order = detail["order"]
+    if None in order or None in forder or sorted(order) != sorted(forder) or len(set(order)) != len(order):
+        if None in forder or sorted(forder) != sorted(tm.all_settings(n)):
+            probs.append("oracle: a fresh StateTomography on the same base circuit does not request one circuit per setting")
+        return probs  # the long-lived object's circuits were reported by the direct oracle already
+    if order != forder:
+        ctx.count("hist:fresh-object-uses-another-order")
+    fby = dict(zip(forder, frec["seen"]))
+    for k, (lab, c) in enumerate(zip(order, long_seen)):
+        a, b = cg.observe(c), cg.observe(fby[lab])
+        if (a["n"], a["input_modes"], a["in_heralds"], a["out_heralds"]) != \
+                (b["n"], b["input_modes"], b["in_heralds"], b["out_heralds"]) \
+                or not np.all(np.abs(a["U_full"] - b["U_full"]) <= 1e-12):
+            probs.append(f"oracle: requested circuit #{k} ({lab}) differs from the circuit a fresh StateTomography "
+                         f"on the same base circuit requests for that setting")
+            break
+    if frho.shape != detail["rho"].shape or not np.all(np.abs(frho - detail["rho"]) <= TOL):
+        probs.append("oracle: rho differs from the rho of a fresh StateTomography on the same base circuit and data")
+    ctx.count("hist:compared-with-fresh-object")
+    return probs
+
+
+def shrink_hist(ctx: Ctx, case: dict) -> dict:
+    def still(steps):
+        try:
+            return bool(run_hist(ctx, dict(case, steps=steps)))
+        except Exception:  # noqa: BLE001  (a history that is no longer well formed)
+            return False
+
+    steps = ddmin(case["steps"], still, max_tests=80) if len(case["steps"]) > 1 else case["steps"]
+    # then the gates inside every remaining extension
+    for k, st in enumerate(steps):
+        if st["op"] == "extend" and len(st["gates"]) > 1:
+            def still_g(gates, k=k, st=st):
+                return still([*steps[:k], dict(st, gates=gates), *steps[k + 1:]])
+
+            steps = [*steps[:k], dict(st, gates=ddmin(st["gates"], still_g, max_tests=30)), *steps[k + 1:]]
+    return dict(case, steps=steps)
+
+
+# --------------------------------------------------------------------------- fidelity robustness
+#
+# fidelity() / state_fidelity on matrices as tomography produces them: an exact pure-state density
+# matrix plus Hermitian rounding residue of magnitude 0, 1e-40 ... 1e-17 (the matrix square root of
+# such a singular matrix is where general-purpose routines break), in the shapes residue really has:
+# a tiny multiple of a Pauli string, entries coupling the null space to the support, a dense block on
+# the null space, dense everywhere, tiny (also negative) diagonal entries.  Expected: 1 within 1e-6,
+# a finite real number, no exception.  Mixed full-rank states are compared with the closed formula
+# F = tr sqrt( sqrt(rho) sigma sqrt(rho) )  (the library's convention, model: stateFidelity) and with
+# known values, so that a wrong formula is seen too.
+
+H_ = 1 / np.sqrt(2)
+ONE_QUBIT = {"0": [1, 0], "1": [0, 1], "+": [H_, H_], "-": [H_, -H_], "+i": [H_, 1j * H_], "-i": [H_, -1j * H_],
+             "t": [H_, (1 + 1j) / 2], "r345": [0.6, 0.8], "c345": [0.6, 0.8j]}
+PAULI1 = {"I": np.eye(2, dtype=complex), **tm.PAULI_NP}
+F28_EPS = 6.25585058458156e-35  # the residue of finding F28 (notes/repro/f28_repro.py)
+MAGS = [1e-40, 1e-35, 1e-30, 1e-25, 1e-20, 1e-17]
+
+
+def mat_json(a) -> list:
+    return [[[float(np.real(z)), float(np.imag(z))] for z in row] for row in np.array(a)]
+
+
+def mat_np(j) -> np.ndarray:
+    return np.array([[complex(*z) for z in row] for row in j], dtype=complex)
+
+
+def kron_all(vs) -> np.ndarray:
+    out = np.array([1], dtype=complex)
+    for v in vs:
+        out = np.kron(out, np.array(v, dtype=complex))
+    return out
+
+
+def rand_pure(rng, n: int):
+    kind = rng.choice(["basis", "product", "product", "bell-x", "ghz", "w", "dense"])
+    if n == 1 and kind in ("bell-x", "ghz", "w"):
+        kind = "product"
+    if kind == "basis":
+        v = np.zeros(2**n, dtype=complex)
+        v[rng.randrange(2**n)] = 1
+    elif kind == "product":
+        v = kron_all([ONE_QUBIT[rng.choice(list(ONE_QUBIT))] for _ in range(n)])
+    elif kind == "bell-x":
+        b = np.array(rng.choice([[1, 0, 0, 1], [1, 0, 0, -1], [0, 1, 1, 0], [0, 1, -1j, 0], [1, 0, 0, 1j]]),
+                     dtype=complex) * H_
+        rest = [ONE_QUBIT[rng.choice(list(ONE_QUBIT))] for _ in range(n - 2)]
+        v = kron_all([b, *rest]) if rng.random() < 0.5 else kron_all([*rest, b])
+    elif kind == "ghz":
+        v = np.zeros(2**n, dtype=complex)
+        v[0] = H_
+        v[-1] = H_ * rng.choice([1, -1, 1j, -1j])
+    elif kind == "w":
+        v = np.zeros(2**n, dtype=complex)
+        for q in range(n):
+            v[1 << q] = 1 / np.sqrt(n)
+    else:
+        v = np.array([complex(rng.gauss(0, 1), rng.gauss(0, 1)) for _ in range(2**n)])
+        v = v / np.linalg.norm(v)
+    return kind, v
+
+
+def rand_mag(rng) -> float:
+    r = rng.random()
+    if r < 0.25:
+        return rng.choice(MAGS)
+    if r < 0.3:
+        return F28_EPS * rng.choice([1, 0.5, 2, 10, 1e3, 1e-3])
+    return 10.0 ** rng.uniform(-40, -17)
+
+
+def rand_residue(rng, psi: np.ndarray, n: int):
+    """(class, sparse entry list [[i, j, re, im], ...] with i <= j; the Hermitian partner is implied)"""
+    d = len(psi)
+    null = [i for i in range(d) if abs(psi[i]) < 1e-12]
+    supp = [i for i in range(d) if i not in null]
+    classes = ["pauli", "pauli", "dense-all", "diag", "sparse"]
+    if null:
+        classes += ["couple", "couple", "couple", "couple", "couple-subset", "dense-null"]
+    cls = rng.choice(classes)
+    mag = rand_mag(rng)
+    ent: dict = {}
+
+    def put(i, j, v):
+        v = complex(v)
+        if i > j:
+            i, j, v = j, i, v.conjugate()
+        if i == j:
+            v = complex(v.real, 0)
+        ent[(i, j)] = ent.get((i, j), 0) + v
+
+    def phase():
+        return rng.choice([1, -1, 1j, -1j])
+
+    if cls == "pauli":
+        for _ in range(rng.choice([1, 1, 2, 3])):
+            s = [rng.choice("IXYZ") for _ in range(n)]
+            if all(c == "I" for c in s):
+                s[rng.randrange(n)] = rng.choice("XYZ")
+            m = np.array([[1]], dtype=complex)
+            for c in s:
+                m = np.kron(m, PAULI1[c])
+            eps = mag * rng.choice([1, -1]) * rng.choice([1, 1, rng.uniform(0.1, 1)])
+            for i in range(d):
+                for j in range(i, d):
+                    if m[i, j] != 0:
+                        put(i, j, eps * m[i, j])
+    elif cls in ("couple", "couple-subset"):
+        rows = null if cls == "couple" or len(null) < 2 else rng.sample(null, rng.randint(2, len(null)))
+        style = rng.choice(["same-real", "same-phase", "diff"])
+        for i in rows:
+            cols = [rng.choice(supp)] if rng.random() < 0.8 else supp
+            for j in cols:
+                put(i, j, mag * {"same-real": 1, "same-phase": phase(),
+                                 "diff": rng.uniform(0.1, 1) * phase()}[style])
+        cls += ":" + style
+    elif cls == "dense-null":
+        for a, i in enumerate(null):
+            for j in null[a:]:
+                put(i, j, mag * complex(rng.gauss(0, 1), rng.gauss(0, 1)))
+    elif cls == "dense-all":
+        for i in range(d):
+            for j in range(i, d):
+                put(i, j, mag * complex(rng.gauss(0, 1), rng.gauss(0, 1)))
+    elif cls == "diag":
+        for i in (null or list(range(d))):
+            put(i, i, mag * rng.choice([1, -1, rng.uniform(-1, 1)]))
+    else:
+        for _ in range(rng.randint(1, 4)):
+            put(rng.randrange(d), rng.randrange(d), mag * rng.uniform(0.1, 1) * phase())
+    return cls, [[i, j, v.real, v.imag] for (i, j), v in ent.items()]
+
+
+def residue_np(d: int, ent: list) -> np.ndarray:
+    e = np.zeros((d, d), dtype=complex)
+    for i, j, re, im in ent:
+        if i == j:
+            e[i, i] += re
+        else:
+            e[i, j] += complex(re, im)
+            e[j, i] += complex(re, -im)
+    return e
+
+
+def gen_fid_case(ctx: Ctx, rng, n_trials: int) -> dict:
+    n = rng.choices([1, 2, 3], weights=[15, 40, 45])[0]
+    kind, psi = rand_pure(rng, n)
+    trials = [{"cls": "none", "E": [], "args": "pert-vs-exact", "aslist": rng.random() < 0.3}]
+    for _ in range(n_trials):
+        cls, ent = rand_residue(rng, psi, n)
+        trials.append({"cls": cls, "E": ent,
+                       "args": rng.choice(["pert-vs-exact", "pert-vs-exact", "exact-vs-pert", "pert-vs-pert"]),
+                       "aslist": rng.random() < 0.15})
+    return {"stream": "fid", "n": n, "kind": kind, "psi": [[float(z.real), float(z.imag)] for z in psi],
+            "trials": trials}
+
+
+def _f28_case() -> dict:
+    psi = kron_all([[0, 1], [H_, -H_]])
+    e = F28_EPS
+    return {"stream": "fid", "n": 2, "kind": "product", "psi": [[float(z.real), float(z.imag)] for z in psi],
+            "trials": [{"cls": "pauli", "E": [[0, 3, e, 0.0], [1, 2, e, 0.0]], "args": a, "aslist": False}
+                       for a in ("pert-vs-pert", "pert-vs-exact", "exact-vs-pert")]}
+
+
+def call_fidelity(a, b, aslist: bool):
+    from lightworks.tomography import state_fidelity
+
+    if aslist:
+        return state_fidelity(np.array(a), [list(r) for r in np.array(b)])
+    return state_fidelity(np.array(a), np.array(b))
+
+
+def check_fid_value(f, want: float, what: str) -> str | None:
+    try:
+        ok = np.isfinite(f) and abs(complex(f).imag) <= FID_TOL and abs(complex(f).real - want) <= FID_TOL
+    except Exception:  # noqa: BLE001
+        ok = False
+    return None if ok else f"fidelity {what} is {f!r}, expected {want:.9g}"
+
+
+def run_fid(ctx: Ctx, case: dict) -> list[str]:
+    psi = np.array([complex(*z) for z in case["psi"]], dtype=complex)
+    d = len(psi)
+    rho0 = density_from_state(psi)
+    probs = []
+    for t, tr in enumerate(case["trials"]):
+        pert = rho0 + residue_np(d, tr["E"])
+        a, b = {"pert-vs-exact": (pert, rho0), "exact-vs-pert": (rho0, pert), "pert-vs-pert": (pert, pert)}[tr["args"]]
+        ctx.count("fid:residue=" + tr["cls"].split(":")[0])
+        try:
+            f = call_fidelity(a, b, tr["aslist"])
+        except Exception as e:  # noqa: BLE001
+            probs.append(f"oracle: state_fidelity raised {exc_class(e)} on a pure-state density matrix with rounding "
+                         f"residue (trial {t}: {tr['cls']}, {tr['args']})")
+            continue
+        bad = check_fid_value(f, 1.0, f"of a pure-state density matrix with rounding residue against itself "
+                                      f"(trial {t}: {tr['cls']}, {tr['args']})")
+        if bad:
+            probs.append("oracle: " + bad)
+    return probs
+
+
+def shrink_fid(ctx: Ctx, case: dict) -> dict:
+    for tr in case["trials"]:
+        c = dict(case, trials=[tr])
+        if run_fid(ctx, c):
+            ent = ddmin(tr["E"], lambda sub: bool(run_fid(ctx, dict(case, trials=[dict(tr, E=sub)]))), max_tests=60) \
+                if len(tr["E"]) > 1 else tr["E"]
+            return dict(case, trials=[dict(tr, E=ent)])
+    return case
+
+
+def psd_sqrt(m: np.ndarray) -> np.ndarray:
+    w, v = np.linalg.eigh((m + m.conj().T) / 2)
+    return (v * np.sqrt(np.clip(w, 0, None))) @ v.conj().T
+
+
+def ref_fidelity(rho: np.ndarray, sigma: np.ndarray) -> float:
+    """tr sqrt( sqrt(rho) sigma sqrt(rho) ) = sum of the singular values of sqrt(rho) sqrt(sigma)"""
+    return float(np.sum(np.linalg.svd(psd_sqrt(rho) @ psd_sqrt(sigma), compute_uv=False)))
+
+
+def rand_density(rng, d: int, rank: int | None = None) -> np.ndarray:
+    rank = rank or d
+    g = np.array([[complex(rng.gauss(0, 1), rng.gauss(0, 1)) for _ in range(rank)] for _ in range(d)])
+    m = g @ g.conj().T
+    return m / np.trace(m).real
+
+
+def gen_fidmix_case(ctx: Ctx, rng) -> dict:
+    n = rng.choices([1, 2, 3], weights=[35, 45, 20])[0]
+    d = 2**n
+    what = rng.choice(["self", "self", "mixed-vs-mixed", "maxmixed-vs-pure", "diag-vs-diag", "pure-vs-mixed",
+                       "orthogonal-pure", "pure-vs-pure", "self-low-rank"])
+    expect = None
+    if what in ("self", "self-low-rank"):
+        rho = rand_density(rng, d, None if what == "self" else rng.randint(1, max(1, d - 1)))
+        sigma, expect = rho, 1.0
+    elif what == "mixed-vs-mixed":
+        rho, sigma = rand_density(rng, d), rand_density(rng, d)
+    elif what == "maxmixed-vs-pure":
+        _, psi = rand_pure(rng, n)
+        rho, sigma = np.eye(d, dtype=complex) / d, density_from_state(psi)
+        expect = 1 / np.sqrt(d)  # the library's fidelity is tr sqrt(.), not its square
+        if rng.random() < 0.5:
+            rho, sigma = sigma, rho
+    elif what == "diag-vs-diag":
+        p = np.array([rng.random() + 0.01 for _ in range(d)])
+        q = np.array([rng.random() + 0.01 for _ in range(d)])
+        p, q = p / p.sum(), q / q.sum()
+        rho, sigma = np.diag(p).astype(complex), np.diag(q).astype(complex)
+        expect = float(np.sum(np.sqrt(p * q)))
+    elif what == "pure-vs-mixed":
+        _, psi = rand_pure(rng, n)
+        sigma = rand_density(rng, d)
+        rho = density_from_state(psi)
+        expect = float(np.sqrt(np.vdot(psi, sigma @ psi).real))
+        if rng.random() < 0.5:
+            rho, sigma = sigma, rho
+    elif what == "orthogonal-pure":
+        b = rng.sample(range(d), 2)
+        u = np.linalg.qr(np.array([[complex(rng.gauss(0, 1), rng.gauss(0, 1)) for _ in range(d)] for _ in range(d)]))[0]
+        rho, sigma, expect = density_from_state(u[:, b[0]]), density_from_state(u[:, b[1]]), 0.0
+    else:
+        _, a = rand_pure(rng, n)
+        _, b = rand_pure(rng, n)
+        rho, sigma, expect = density_from_state(a), density_from_state(b), float(abs(np.vdot(a, b)))
+    return {"stream": "fidmix", "n": n, "what": what, "rho": mat_json(rho), "sigma": mat_json(sigma),
+            "expect": expect}
+
+
+def run_fidmix(ctx: Ctx, case: dict) -> list[str]:
+    rho, sigma = mat_np(case["rho"]), mat_np(case["sigma"])
+    what = case["what"]
+    ctx.count("fidmix:" + what)
+    want = ref_fidelity(rho, sigma)
+    tol = 1e-6 if what != "orthogonal-pure" else 1e-5  # sqrt of rounding noise of order 1e-16 .. 1e-12
+    if case["expect"] is not None and abs(want - case["expect"]) > tol:
+        raise MachineryFault(f"reference fidelity {want} differs from the closed form {case['expect']} ({what})")
+    try:
+        f = call_fidelity(rho, sigma, False)
+        g = call_fidelity(sigma, rho, False)
+    except Exception as e:  # noqa: BLE001
+        return [f"oracle: state_fidelity raised {exc_class(e)} on valid density matrices ({what})"]
+    probs = []
+    for val, nm in ((f, "F(rho, sigma)"), (g, "F(sigma, rho)")):
+        try:
+            ok = np.isfinite(val) and abs(complex(val).imag) <= tol and abs(complex(val).real - want) <= tol
+        except Exception:  # noqa: BLE001
+            ok = False
+        if not ok:
+            if what in ("self", "self-low-rank"):
+                probs.append(f"oracle: fidelity of a density matrix against itself is {val!r} ({what}, n={case['n']})")
+            else:
+                probs.append(f"corr: {nm} = {val!r} differs from tr sqrt(sqrt(rho) sigma sqrt(rho)) = {want:.9g} "
+                             f"({what}, n={case['n']})")
+            break
+    return probs
+
+
+def gen_fidp_case(ctx: Ctx, rng) -> dict:
+    n = rng.choices([1, 2, 3], weights=[25, 45, 30])[0]
+    kind, psi = rand_pure(rng, n)
+    return {"stream": "fidp", "n": n, "kind": kind, "psi": [[float(z.real), float(z.imag)] for z in psi],
+            "shuffle": rng.randrange(1 << 30), "drop_zero": rng.random() < 0.5}
+
+
+def run_fidp(ctx: Ctx, case: dict) -> list[str]:
+    """fidelity() THE METHOD, on the matrix process() itself computes (with the rounding residue the
+    Pauli sum really leaves) from the exact outcome probabilities of a given pure state"""
+    import random
+
+    from lightworks.tomography import state_fidelity
+
+    n = case["n"]
+    psi = np.array([complex(*z) for z in case["psi"]], dtype=complex)
+    order = observe_order(ctx, n)
+    if None in order or sorted(order) != sorted(tm.all_settings(n)):
+        return ["oracle: on the empty base circuit the requested circuits are not one per measurement setting "
+                f"(identified: {order})"]
+    mu = meta(ctx, n)["meas_u_np"]
+    srng = random.Random(case["shuffle"])
+
+    def exp(circuits):  # noqa: ARG001
+        out = []
+        for lab in order:
+            b = np.array([[1]], dtype=complex)
+            for g in lab.split(","):
+                b = np.kron(b, mu[g])
+            pr = np.abs(b @ psi) ** 2
+            items = [(k, float(pr[k])) for k in range(2**n) if pr[k] > 0 or not case["drop_zero"]]
+            srng.shuffle(items)
+            out.append({lw.State(tm.dual_rail(n, k)): v for k, v in items})
+        return out
+
+    tomo = StateTomography(n, lw.Circuit(2 * n), exp)
+    ctx.count("fidp:" + case["kind"])
+    try:
+        rho = np.array(tomo.process())
+    except Exception as e:  # noqa: BLE001
+        return [f"oracle: process() raised {exc_class(e)} on the exact outcome probabilities of a pure state"]
+    ref = density_from_state(psi)
+    probs = []
+    if rho.shape != ref.shape or not np.all(np.abs(rho - ref) <= TOL):
+        probs.append("oracle: rho differs from |psi><psi| on the exact outcome probabilities of a pure state")
+        return probs
+    d = 2**n
+    for sigma, want, nm, kind in ((ref, 1.0, "against the prepared state", "oracle"),
+                                  (rho, 1.0, "against the returned matrix itself", "oracle"),
+                                  (np.eye(d) / d, 1 / np.sqrt(d), "against the maximally mixed state", "corr")):
+        try:
+            f = tomo.fidelity(sigma)
+        except Exception as e:  # noqa: BLE001
+            probs.append(f"oracle: fidelity() {nm} raised {exc_class(e)}")
+            continue
+        bad = check_fid_value(f, want, nm)
+        if bad:
+            probs.append(f"{kind}: " + bad)
+        else:
+            try:
+                f2 = state_fidelity(tomo.rho, sigma)
+                if not abs(f2 - f) <= FID_TOL:
+                    probs.append(f"corr: fidelity() = {f!r} but state_fidelity(.rho, same matrix) = {f2!r}")
+            except Exception as e:  # noqa: BLE001
+                probs.append(f"oracle: state_fidelity(.rho, ...) raised {exc_class(e)}")
+    return probs
 
 
 def run_case(ctx: Ctx, case: dict) -> list[str]:
@@ -440,6 +1253,14 @@ def run_case(ctx: Ctx, case: dict) -> list[str]:
         return run_state(ctx, case)
     if case["stream"] == "data":
         return run_data(ctx, case)
+    if case["stream"] == "hist":
+        return run_hist(ctx, case)
+    if case["stream"] == "fid":
+        return run_fid(ctx, case)
+    if case["stream"] == "fidmix":
+        return run_fidmix(ctx, case)
+    if case["stream"] == "fidp":
+        return run_fidp(ctx, case)
     return run_init(ctx, case)
 
 
@@ -529,6 +1350,12 @@ def report(ctx: Ctx, case: dict, probs: list[str]) -> None:
     if case["stream"] == "state":
         small = shrink_state(ctx, case)
         probs = run_state(ctx, small) or probs
+    elif case["stream"] == "hist":
+        small = shrink_hist(ctx, case)
+        probs = run_hist(ctx, small) or probs
+    elif case["stream"] == "fid":
+        small = shrink_fid(ctx, case)
+        probs = run_fid(ctx, small) or probs
     oracle = [p for p in probs if p.startswith("oracle")]
     if oracle:
         ctx.violation(oracle[0], {"case": small, "problems": probs},
@@ -541,13 +1368,53 @@ def run(ctx: Ctx) -> None:
     ctx.rule = ("state stream: base circuits on 2n visible modes, n=1..3 (qubit-level programs of named gates, exact "
                 "single-qubit unitaries, post-selected/heralded CZ and CNOT in both orientations, swaps; or wild "
                 "mode-level circuits), noiseless callback; non-trivial = prepared state has >= 2 non-zero amplitudes "
-                "(superposition) ; distinct = distinct (n, program, input). data stream: synthetic result "
+                "(superposition) ; distinct = distinct (n, program, input). hist stream: long-lived StateTomography "
+                "objects, process() -> mutate base circuit / Parameter / experiment / experiment_args -> process() "
+                "again, every call checked as in the state stream and against a fresh object; non-trivial = the "
+                "prepared state changed between two calls on one object. fid / fidmix / fidp streams: state_fidelity "
+                "and fidelity() on pure-state matrices with rounding residue (0, 1e-40..1e-17), on mixed states "
+                "against the closed formula, and on matrices process() computed; non-trivial = residue present / "
+                "not a self comparison / superposition. data stream: synthetic result "
                 "dictionaries, ~50% malformed; init stream: constructor validation")
     rng = ctx.rng
     n_state = ctx.n(70, 1500)
     n_data = ctx.n(60, 1500)
     n_init = ctx.n(40, 400)
+    n_hist = ctx.n(40, 500)
+    n_fid, fid_trials = ctx.n(300, 3000), 30
+    n_fidmix = ctx.n(200, 3000)
+    n_fidp = ctx.n(100, 1500)
     hash_order_probe(ctx, rng)
+
+    def one_hist(case, directed):
+        probs, info = run_hist(ctx, case, want_info=True)
+        ctx.count("hist:directed" if directed else f"hist:n={case['n']}")
+        ctx.count("hist:objects=" + str(sum(1 for st in case["steps"] if st["op"] == "new")))
+        for op in sorted(info["ops"]):
+            ctx.count("hist:has-" + op)
+        ctx.count("hist:process-calls", info["processes"])
+        if info["state_changed_between_calls"]:
+            ctx.count("hist:state-changed-between-calls")
+        if info["modes_changed_between_calls"]:
+            ctx.count("hist:modes-added-between-calls")
+        if any(st["op"] == "extend" and any(g[0] in ("MODEU", "PRIM", "PBS") for g in st["gates"])
+               for st in case["steps"]):
+            ctx.count("hist:oracle-only")
+        ctx.case(json.dumps(case), info["state_changed_between_calls"] > 0)
+        if probs:
+            report(ctx, case, probs)
+
+    def one_simple(case, fn, nontrivial):
+        probs = fn(ctx, case)
+        ctx.case(json.dumps(case), nontrivial)
+        if probs:
+            report(ctx, case, probs)
+
+    # ---- directed corpus: always first
+    for case in HIST_CORPUS:
+        one_hist(case, True)
+    one_simple(_f28_case(), run_fid, True)
+    ctx.count("fid:directed")
     for i in range(n_state):
         if ctx.out_of_time():
             break
@@ -581,6 +1448,30 @@ def run(ctx: Ctx) -> None:
                  sample={"n": n, "prog": case["prog"], "order": detail and detail["order"]} if i < 2 else None)
         if probs:
             report(ctx, case, probs)
+    hrng = random.Random(f"C15-hist-{ctx.seed}")  # own streams: the older streams keep their cases per seed
+    for _ in range(n_hist):
+        if ctx.out_of_time():
+            break
+        one_hist(gen_hist_case(ctx, hrng), False)
+    frng = random.Random(f"C15-fid-{ctx.seed}")
+    for _ in range(n_fid):
+        if ctx.out_of_time():
+            break
+        case = gen_fid_case(ctx, frng, fid_trials)
+        ctx.count(f"fid:n={case['n']}")
+        ctx.count("fid:state=" + case["kind"])
+        ctx.count("fid:trials", len(case["trials"]))
+        one_simple(case, run_fid, True)
+    for _ in range(n_fidmix):
+        if ctx.out_of_time():
+            break
+        case = gen_fidmix_case(ctx, frng)
+        one_simple(case, run_fidmix, case["what"] != "self")
+    for _ in range(n_fidp):
+        if ctx.out_of_time():
+            break
+        case = gen_fidp_case(ctx, frng)
+        one_simple(case, run_fidp, sum(1 for z in case["psi"] if abs(complex(*z)) > 1e-9) >= 2)
     for _ in range(n_data):
         if ctx.out_of_time():
             break
